@@ -200,27 +200,27 @@ type qsim struct {
 	now int64
 
 	// sent-packet handler
-	hist       []*spkt
-	first      int64 // packet number of hist[0]
-	nextPN     int64
-	nextSkip   int64
-	skipPeriod int64
-	skipped    []int64
-	bif        int64
-	nOut       int // "outstanding": ack-eliciting, not an MTU probe
-	nTracked   int
+	hist                []*spkt
+	first               int64 // packet number of hist[0]
+	nextPN              int64
+	nextSkip            int64
+	skipPeriod          int64
+	skipped             []int64
+	bif                 int64
+	nOut                int // "outstanding": ack-eliciting, not an MTU probe
+	nTracked            int
 	nTrackedBeforeEvent int // packets tracked when the processing that led to the latest OnCongestionEventEx began
 	trackedPre          int
-	largestAck int64
-	largestAckSent int64
-	lossTime   int64
-	lastElic   int64
-	ptoCount   uint
-	probesToSend int
-	alarm      int64
-	ackedInfo  []congestion.AckedPacketInfo
-	lostInfo   []congestion.LostPacketInfo
-	ackedUpto  int
+	largestAck          int64
+	largestAckSent      int64
+	lossTime            int64
+	lastElic            int64
+	ptoCount            uint
+	probesToSend        int
+	alarm               int64
+	ackedInfo           []congestion.AckedPacketInfo
+	lostInfo            []congestion.LostPacketInfo
+	ackedUpto           int
 
 	// connection
 	dgram          int64 // maximum packet size the packer uses == the controller's datagram size
